@@ -557,7 +557,7 @@ def run(ctx):
             case(8, n, 0, o["d"], "", {"fn": "sec2dhms", "n": n})
             case(9, n, 0, o["h"], "", {"fn": "sec2hms", "n": n})
             dh_texts.append((o["d"], o["h"]))
-            if o["d"] != ref_sec2dhms(n) or o["h"] != ref_sec2hms(n):  # every int64, -2**63 included (repaired 9852efdc5)
+            if o["d"] != ref_sec2dhms(n) or o["h"] != ref_sec2hms(n):  # every int64, -2**63 included (repaired 173961000)
                 bad("dhms-roundtrip-minint64" if n == -2 ** 63 else "sec2dhms-text", input=n, observed=[o["d"], o["h"]], expected=[ref_sec2dhms(n), ref_sec2hms(n)],
                     how="mlr -n put 'end{print sec2dhms(%d) . \" \" . sec2hms(%d)}'" % (n, n))
             if o["bd"] != ns or o["bh"] != ns:
@@ -667,7 +667,7 @@ def zone_cases(ctx, zones, wlo, whi, pts, case, bad):
                                       'gmt2localtime(nsec2gmt($t * 1000000000 + 999999999, 9), "%s")' % name,
                                       'localtime2gmt(nsec2localtime($t * 1000000000 + 999999900, 9, "%s"), "%s")' % (name, name)]),
                       ["l", "back", "g2l", "l2g", "g", "sfl", "l2", "g2lf", "l2gf"]), {}))
-    # the text-to-text conversions over the whole range of years 1..9999 (fixed d09b4afa6: they went through int64
+    # the text-to-text conversions over the whole range of years 1..9999 (fixed 0736195cc: they went through int64
     # nanoseconds and wrapped around outside 1678..2262); fixed probes + random instants, every zone
     wide = [-14831769600, 16725225600, -62135596800 + 400 * 86400, 253402300799 - 400 * 86400, -9223372037, 9223372037, -9223372036, 9223372036] + \
            [ctx.rng.randint(-62135596800 + 400 * 86400, 253402300799 - 400 * 86400) for _ in range(8 if ctx.tier == "quick" else 200)]
